@@ -13,7 +13,8 @@ Definition cfg_has_panic (cfg : dcfg) : bool :=
   existsb fscript_has_panic (d_cfilters cfg)
   || existsb (fun x => existsb fscript_has_panic (snd x)) (d_sfilters cfg)
   || existsb (fun x => existsb fscript_has_panic (snd x)) (d_rfilters cfg)
-  || existsb (fun x => existsb action_is_panic (snd x)) (d_handlers cfg).
+  || existsb (fun x => existsb action_is_panic (snd x)) (d_handlers cfg)
+  || negb (match d_condpanic cfg with [] => true | _ => false end).
 
 (* C06: the order of events.  Filters run container, service, route, each in
    registration order; one that does not pass on stops everything after it;
@@ -39,6 +40,36 @@ Definition expected_events (cfg : dcfg) (req : request) : list str :=
   | RInvoke w r ps =>
       chain_events (d_cfilters cfg ++ sfilters_of cfg w ++ rfilters_of cfg r) [L "H:" ++ itoa (r_id r)]
   | RError _ => chain_events (d_cfilters cfg) []     (* only the container filters, around the error writer *)
+  | RPanic => []
+  end.
+
+(* C06, attributes: with filters that pass on the request they were given (no new wrapper), the
+   actions of a request happen in one line — pre parts, the route function, post parts in reverse —
+   on ONE attribute map: what a stage sets is what every later stage sees *)
+Fixpoint flat_actions (fs : list fscript) (target : list action) : list action :=
+  match fs with
+  | [] => target
+  | f :: rest => f_pre f ++ (if f_pass f then flat_actions rest target else []) ++ f_post f
+  end.
+
+Fixpoint sees_of (l : list action) (attrs : list (str * str)) : list str :=
+  match l with
+  | [] => []
+  | AAttr k v :: l' => sees_of l' (pset k v attrs)
+  | ASee k :: l' => (L "see:" ++ k ++ L "=" ++ attr_get k attrs) :: sees_of l' attrs
+  | _ :: l' => sees_of l' attrs
+  end.
+
+Definition cfg_has_fresh (cfg : dcfg) : bool :=
+  existsb f_fresh (d_cfilters cfg)
+  || existsb (fun x => existsb f_fresh (snd x)) (d_sfilters cfg)
+  || existsb (fun x => existsb f_fresh (snd x)) (d_rfilters cfg).
+
+Definition expected_sees (cfg : dcfg) (req : request) : list str :=
+  match route_request O (d_table cfg) req with
+  | RInvoke w r ps =>
+      sees_of (flat_actions (d_cfilters cfg ++ sfilters_of cfg w ++ rfilters_of cfg r) (handler_of cfg r)) []
+  | RError _ => sees_of (flat_actions (d_cfilters cfg) []) []
   | RPanic => []
   end.
 
